@@ -1,0 +1,211 @@
+//go:build verif
+
+package tls
+
+import (
+	"bytes"
+	"time"
+
+	"golang.org/x/crypto/cryptobyte"
+)
+
+// Verification hooks for session tickets: sealing/opening with given keys and
+// IV, session-state codecs, the TLS 1.2 resumption decision, ticket-key
+// rotation, and access to the ticket held by a client session. Add-only.
+
+// VerifC31Key mirrors ticketKey.
+type VerifC31Key struct {
+	Name      [ticketKeyNameLen]byte
+	AES, HMAC [16]byte
+	Created   int64 // unix seconds
+}
+
+func verifC31Keys(keys []VerifC31Key) []ticketKey {
+	out := make([]ticketKey, len(keys))
+	for i, k := range keys {
+		out[i] = ticketKey{keyName: k.Name, aesKey: k.AES, hmacKey: k.HMAC, created: time.Unix(k.Created, 0)}
+	}
+	return out
+}
+
+func verifC31Export(keys []ticketKey) []VerifC31Key {
+	out := make([]VerifC31Key, len(keys))
+	for i, k := range keys {
+		out[i] = VerifC31Key{Name: k.keyName, AES: k.aesKey, HMAC: k.hmacKey, Created: k.created.Unix()}
+	}
+	return out
+}
+
+// VerifC31KeyFromBytes is Config.ticketKeyFromBytes (external 32-byte key -> name, AES key, HMAC key).
+func VerifC31KeyFromBytes(b [32]byte) VerifC31Key {
+	c := &Config{Time: func() time.Time { return time.Unix(0, 0) }}
+	return verifC31Export([]ticketKey{c.ticketKeyFromBytes(b)})[0]
+}
+
+// VerifC31Seal runs Conn.encryptTicket with the given keys; the IV is read from iv.
+func VerifC31Seal(keys []VerifC31Key, iv []byte, state []byte) ([]byte, error) {
+	c := &Conn{config: &Config{Rand: bytes.NewReader(iv)}, ticketKeys: verifC31Keys(keys)}
+	return c.encryptTicket(state)
+}
+
+// VerifC31Open runs Conn.decryptTicket with the given keys.
+func VerifC31Open(keys []VerifC31Key, ticket []byte) (plaintext []byte, usedOldKey bool) {
+	c := &Conn{config: &Config{}, ticketKeys: verifC31Keys(keys)}
+	return c.decryptTicket(ticket)
+}
+
+// VerifC31State12 mirrors sessionState.
+type VerifC31State12 struct {
+	Vers, Suite  uint16
+	CreatedAt    uint64
+	Master       []byte
+	Certificates [][]byte
+}
+
+func VerifC31MarshalState12(s VerifC31State12) (out []byte, panicked bool) {
+	defer func() {
+		if recover() != nil {
+			out, panicked = nil, true
+		}
+	}()
+	m := sessionState{vers: s.Vers, cipherSuite: s.Suite, createdAt: s.CreatedAt, masterSecret: s.Master, certificates: s.Certificates}
+	return m.marshal(), false
+}
+
+func VerifC31UnmarshalState12(data []byte) (VerifC31State12, bool) {
+	var m sessionState
+	ok := m.unmarshal(data)
+	return VerifC31State12{m.vers, m.cipherSuite, m.createdAt, m.masterSecret, m.certificates}, ok
+}
+
+// VerifC31State13 mirrors the modelled part of sessionStateTLS13.
+type VerifC31State13 struct {
+	Suite        uint16
+	CreatedAt    uint64
+	Secret       []byte
+	Certificates [][]byte
+}
+
+func VerifC31MarshalState13(s VerifC31State13) (out []byte, panicked bool) {
+	defer func() {
+		if recover() != nil {
+			out, panicked = nil, true
+		}
+	}()
+	m := sessionStateTLS13{cipherSuite: s.Suite, createdAt: s.CreatedAt, resumptionSecret: s.Secret, certificate: Certificate{Certificate: s.Certificates}}
+	return m.marshal(), false
+}
+
+func VerifC31UnmarshalState13(data []byte) (VerifC31State13, bool) {
+	var m sessionStateTLS13
+	ok := m.unmarshal(data)
+	return VerifC31State13{m.cipherSuite, m.createdAt, m.resumptionSecret, m.certificate.Certificate}, ok
+}
+
+// VerifC31UnmarshalCertificate parses a TLS 1.3 certificate list that must fill data completely
+// (the tail of a TLS 1.3 session state); it returns the number of certificates.
+func VerifC31UnmarshalCertificate(data []byte) (n int, ok bool) {
+	s := cryptobyte.String(data)
+	var cert Certificate
+	if !unmarshalCertificate(&s, &cert) || !s.Empty() {
+		return 0, false
+	}
+	return len(cert.Certificate), true
+}
+
+// VerifC31Check12In describes a server connection at the point where the TLS <= 1.2
+// handshake calls checkForResumption.
+type VerifC31Check12In struct {
+	Keys            []VerifC31Key
+	Ticket          []byte
+	TicketsDisabled bool
+	Now             int64 // unix seconds
+	Vers            uint16
+	ClientSuites    []uint16
+	ServerSuites    []uint16 // Config.CipherSuites; nil = defaults
+	ClientAuth      ClientAuthType
+	ECDHEOk         bool
+	ECSignOk        bool
+	RSASignOk       bool
+	RSADecryptOk    bool
+}
+
+type VerifC31Check12Out struct {
+	Resume     bool
+	SuiteID    uint16 // hs.suite.id when resuming
+	UsedOldKey bool   // hs.sessionState.usedOldKey when resuming
+	Master     []byte // hs.sessionState.masterSecret when resuming
+}
+
+func VerifC31Check12(in VerifC31Check12In) (out VerifC31Check12Out) {
+	cfg := &Config{SessionTicketsDisabled: in.TicketsDisabled, CipherSuites: in.ServerSuites, ClientAuth: in.ClientAuth,
+		Time: func() time.Time { return time.Unix(in.Now, 0) }}
+	c := &Conn{config: cfg, vers: in.Vers, ticketKeys: verifC31Keys(in.Keys)}
+	hs := &serverHandshakeState{c: c,
+		clientHello: &clientHelloMsg{sessionTicket: in.Ticket, cipherSuites: in.ClientSuites},
+		ecdheOk:     in.ECDHEOk, ecSignOk: in.ECSignOk, rsaSignOk: in.RSASignOk, rsaDecryptOk: in.RSADecryptOk}
+	out.Resume = hs.checkForResumption()
+	if out.Resume {
+		out.SuiteID = hs.suite.id
+		out.UsedOldKey = hs.sessionState.usedOldKey
+		out.Master = hs.sessionState.masterSecret
+	}
+	return out
+}
+
+// VerifC31SuiteFlags lists, for every id reachable through cipherSuiteByID, the flags
+// that cipherSuiteOk reads: ECDHE, EC signature (suiteECSign|suiteECDSA), DSS, TLS 1.2 only.
+type VerifC31SuiteFlags struct {
+	ID                            uint16
+	ECDHE, ECSign, DSS, TLS12Only bool
+}
+
+func VerifC31Suites() (out []VerifC31SuiteFlags) {
+	seen := map[uint16]bool{}
+	for _, s := range implementedCipherSuites {
+		if seen[s.id] {
+			continue
+		}
+		seen[s.id] = true
+		c := cipherSuiteByID(s.id)
+		out = append(out, VerifC31SuiteFlags{c.id, c.flags&suiteECDHE != 0, c.flags&(suiteECSign|suiteECDSA) != 0, c.flags&suiteDSS != 0, c.flags&suiteTLS12 != 0})
+	}
+	return out
+}
+
+// VerifC31DefaultSuites is Config.cipherSuites() of an empty Config.
+func VerifC31DefaultSuites() []uint16 { return (&Config{}).cipherSuites() }
+
+// VerifC31Suites13 lists the TLS 1.3 suites with their hash size.
+func VerifC31Suites13() (ids []uint16, hashSizes []int) {
+	for _, s := range cipherSuitesTLS13 {
+		ids = append(ids, s.id)
+		hashSizes = append(hashSizes, s.hash.Size())
+	}
+	return
+}
+
+// VerifC31TicketKeys returns Config.ticketKeys(nil) (explicit keys, or the auto-rotated list
+// advanced to cfg.Time()).
+func VerifC31TicketKeys(cfg *Config) []VerifC31Key { return verifC31Export(cfg.ticketKeys(nil)) }
+
+// VerifC31RotationConstants returns ticketKeyRotation, ticketKeyLifetime and
+// maxSessionTicketLifetime in seconds.
+func VerifC31RotationConstants() (rotation, lifetime, ticketLifetime int64) {
+	return int64(ticketKeyRotation / time.Second), int64(ticketKeyLifetime / time.Second), int64(maxSessionTicketLifetime / time.Second)
+}
+
+// VerifC31SessionTicket returns the ticket (TLS 1.3: the PSK identity) held by a client session.
+func VerifC31SessionTicket(s *ClientSessionState) (ticket []byte, vers, suite uint16) {
+	if s == nil {
+		return nil, 0, 0
+	}
+	return s.sessionTicket, s.vers, s.cipherSuite
+}
+
+// VerifC31WithTicket returns a copy of the client session that presents the given ticket instead.
+func VerifC31WithTicket(s *ClientSessionState, ticket []byte) *ClientSessionState {
+	c := *s
+	c.sessionTicket = append([]byte{}, ticket...)
+	return &c
+}
